@@ -80,7 +80,23 @@ def _case(kind, code, salt_hex, a_hex, b_hex, rng) -> Dict[str, Any]:
         "ident": _uuid(rng),
         "ctrl_seed": hx(bytes(rng.randrange(256) for _ in range(32))),
         "acc_seed": hx(bytes(rng.randrange(256) for _ in range(32))),
+        "mac": _mac(rng),
     }
+
+
+def _mac(rng) -> str:
+    """the accessory identifier as configured / persisted: upper-case (what generate_mac emits), lower-case,
+    mixed-case and digit-only spellings"""
+    style = rng.choice(["upper", "upper", "lower", "mixed", "digits"])
+    digits = "0123456789" if style == "digits" else "0123456789abcdef"
+    m = ":".join(rng.choice(digits) + rng.choice(digits) for _ in range(6))
+    if style in ("lower", "mixed") and not any(c in "abcdef" for c in m):
+        m = "a" + m[1:-1] + "f"
+    if style == "upper":
+        return m.upper()
+    if style == "mixed":
+        return "".join(c.upper() if rng.random() < 0.5 else c for c in m[:-1]) + m[-1]
+    return m
 
 
 def _uuid(rng) -> str:
@@ -265,9 +281,10 @@ def run_exchange(case: Dict[str, Any]):
     a = int(case["a"], 16)
     ident = case["ident"].encode()
     ltsk = ed25519.Ed25519PrivateKey.from_private_bytes(bytes.fromhex(case["ctrl_seed"]))
-    env = pe.Env(code, bytes.fromhex(case["acc_seed"]))
+    env = pe.Env(code, bytes.fromhex(case["acc_seed"]), mac=case.get("mac", "AA:BB:CC:DD:EE:FF"))
     sc = pe.Script(env)
     v: Dict[str, Any] = {"stage": "M1", "ok": False, "why": "", "K0": None}
+    adv_id = sc.advert()   # how the controller found the accessory: the id of its real Bonjour advertisement
     conn = case.get("conn", 0)
     between = case.get("between", {})
     try:
@@ -303,13 +320,14 @@ def run_exchange(case: Dict[str, Any]):
         if r["status"] != 200:
             v["why"] = f"M5 answered with HTTP {r['status']}"
             return sc, v
-        m6 = pc.check_m6(r["body"], cl.K)
+        m6 = pc.check_m6(r["body"], cl.K, advertised_id=adv_id)
         if not m6.ok:
             v["why"] = m6.why
+            v["id_mismatch"] = m6.accessory_id != b"" and m6.accessory_id != adv_id
             return sc, v
         v["stage"] = "M6"
-        if m6.accessory_id != env.state.mac.encode():
-            v["why"] = "M6 signature is not over the advertised identifier"
+        if sc.advert() != adv_id:
+            v["why"] = "the advertised identifier changed during pair-setup"
             return sc, v
         if m6.accessory_ltpk != env.ltpk:
             v["why"] = "M6 is not signed by the accessory's long-term key"
@@ -417,6 +435,8 @@ def oracle_exchange(ctx: Ctx, case: Dict[str, Any], v: Dict[str, Any]):
     shape = _shape(v.get("lead"))
     if _context(case):   # pristine forced-vector cases cover the leading-zero shapes on their own
         shape = _context(case)
+    if v.get("id_mismatch"):
+        shape = "m6-identifier-is-not-the-advertised-one"
     ctx.fail(
         f"C08:exchange-fails-at-{v['stage']}:{shape}",
         f"a controller using the correct setup code {case['code']!r} does not complete pair-setup: {v['why']} "
@@ -450,7 +470,7 @@ def _arbitrary_worker(c):
 def _exchange_worker(case):
     sc, v = run_exchange(case)
     return {"v": v, "line": sc.model_line(), "impl": sc.impl_view(),
-            "results": [{"bystander": r["bystander"], "status": r["status"]} if "bystander" in r else
+            "results": [{"bystander": r["bystander"], "status": r.get("status"), "adv_id": r.get("adv_id")} if "bystander" in r else
                         {"status": r["status"], "body": hx(r["body"])[:40] + "...", "paired": len(r["paired"])}
                         for r in sc.results]}
 
@@ -610,7 +630,9 @@ def replay(ctx: Ctx, r):
         oracle_exchange(ctx, c, v)
         print("exchange:", {k: c[k] for k in ("code", "salt", "a", "b")})
         for n, res in enumerate(sc.results):
-            if "bystander" in res:
+            if res.get("bystander") == "advert":
+                print(f"  op{n}: advertised id (real AccessoryMDNSServiceInfo) = {bytes.fromhex(res['adv_id'])!r}; state.mac = {c.get('mac')!r}")
+            elif "bystander" in res:
                 print(f"  op{n}: bystander {res['bystander']} (its request: HTTP {res['status']})")
             else:
                 print(f"  op{n}: conn {sc.ops[n]['conn']} HTTP {res['status']} body {hx(res['body'])[:60]}... paired={len(res['paired'])}")
